@@ -12,6 +12,8 @@ CONSTANTS
     ResetMemoAtLastRelease = TRUE
     DropOnlyAtZero = TRUE
     DoneDuplicate = TRUE
+    ResolveDetached = TRUE
+    Cancels = TRUE
 INIT GenInit
 NEXT GenNext
 VIEW core
